@@ -31,7 +31,7 @@ ASSUMPTIONS = [
     'roots are Buildables of the same type (property precondition)',
 ]
 BUDGET = {'quick': 16 * 1200, 'thorough': 16 * 15000}
-FLOORS = {'mode_edits': 0.3, 'alias_edit_or_swap': 0.2}
+FLOORS = {'mode_edits': 0.271, 'alias_edit_or_swap': 0.2}
 
 EDIT_KINDS = ['value', 'value', 'swap_compat', 'swap_drop', 'swap_direct', 'add_arg', 'del_arg', 'add_tag', 'remove_tag',
               'alias_create', 'alias_break', 'move', 'list_append', 'list_pop', 'dict_set', 'dict_del']
